@@ -265,7 +265,10 @@ def arr_getitem(ex, obj, idx):
             maps.append(("slice", lo))
         else:
             t = z_int(int_of(i, "array index"))
-            if not ex.st.branch(z3.And(t >= -n, t < n)):
+            checked = getattr(ex, "unchecked_indexing", None)
+            if checked is not None:
+                checked(ex, t, n, ax)
+            elif not ex.st.branch(z3.And(t >= -n, t < n)):
                 ex.throw("IndexError", "index out of bounds")
             maps.append(("int", z3.simplify(z3.If(t >= 0, t, t + n))))
     if not new_shape:
@@ -933,6 +936,13 @@ def _arange(ex, args, kwargs, fr):
             items = [VInt(i) for i in range(n)]
             return new_array(ex, (n,), VDtype("int64"), lambda ix, items=items: _select(items, ix[0]))
         return new_array(ex, (z3.If(n > 0, n, 0),), VDtype("int64"), lambda ix: VInt(z_int(ix[0])))
+    if len(args) == 3 and all(is_num(a) for a in args) and isinstance(args[2], (VFloat, VInt)) and is_conc(args[2].v) and float(args[2].v) == 1.0 \
+            and isinstance(args[0], (VFloat, VInt)) and is_conc(args[0].v) and float(args[0].v) == 0.0:
+        n = z_int(int_of(args[1])) if isinstance(args[1], (VInt, VBool)) else None
+        if n is not None:
+            isf = isinstance(args[0], VFloat) or isinstance(args[2], VFloat)
+            return new_array(ex, (z3.If(n > 0, n, 0),), VDtype("float64" if isf else "int64"),
+                             lambda ix: (VFloat(z3.ToReal(z_int(ix[0]))) if isf else VInt(z_int(ix[0]))))
     raise Unsupported("np.arange with these arguments")
 
 
@@ -1089,3 +1099,36 @@ def _mean(ex, args, kwargs, fr):
     r = VFloat(ex.st.fresh_real("mean"))
     ex.st.ghost.setdefault("reductions", []).append({"result": r, "elem": c.elem, "shape": c.shape, "kind": "mean", "dtype": c.dtype})
     return r
+
+
+@npfn("numpy.floor_divide")
+def _floor_divide(ex, args, kwargs, fr):
+    """floor(a / b) elementwise (contract for b > 0; exact real arithmetic)."""
+    a, b = args[0], args[1]
+
+    def f(x, y):
+        return VFloat(z3.ToReal(z3.ToInt(to_real(x) / to_real(y))))
+    if ex.is_arr(a) or ex.is_arr(b):
+        shape, fa, fb = broadcast(ex, a, b)
+        return new_array(ex, shape, VDtype("float64"), lambda ix: f(fa(ix), fb(ix)))
+    return f(a, b)
+
+
+@npfn("numpy.repeat")
+def _repeat(ex, args, kwargs, fr):
+    c = cell(ex, args[0])
+    reps = z_int(int_of(args[1] if len(args) > 1 else kwargs["repeats"]))
+    if len(c.shape) != 1:
+        raise Unsupported("np.repeat of a non 1-D array")
+    el = c.elem
+    return new_array(ex, (z_int(c.shape[0]) * reps,), c.dtype, lambda ix: el((z_int(ix[0]) / reps,)))
+
+
+@npfn("numpy.tile")
+def _tile(ex, args, kwargs, fr):
+    c = cell(ex, args[0])
+    reps = z_int(int_of(args[1] if len(args) > 1 else kwargs["reps"]))
+    if len(c.shape) != 1:
+        raise Unsupported("np.tile of a non 1-D array")
+    el, n = c.elem, z_int(c.shape[0])
+    return new_array(ex, (n * reps,), c.dtype, lambda ix: el((z_int(ix[0]) % n,)))
